@@ -30,19 +30,21 @@ def abstract_part(out):
     import abstract_common as AC
     sc = vc.scratch(PROP + 'm')
     R = mcheck.MRun(vc.REPO, sc, 'codegen', max_depth=80, max_paths=80000)
-    cands = [c for c in AC.run_kernel(R, vc.tier()) if c['prop'] == 'C01']
+    cands = [c for c in AC.run_kernel(R, vc.tier(), objects=True) if c['prop'] == 'C01']
     C = consumer.Consumer(sc)
     seen = set()
     replayed = 0
     for c in sorted(cands, key=lambda c: len(json.dumps(c['model']))):
         role = c['what'].split(':', 1)[1].split('-', 1)[1] if ':' in c['what'] else c['what']
-        if role in seen or len(seen) >= 3:
+        if c['kernel'] == 'object_selection':
+            role = 'object-' + role
+        if role in seen or len(seen) >= 4:
             continue
         seen.add(role)
-        ok, desc, rp = AC.confirm(C, c['model'])
+        ok, desc, rp = AC.confirm_object(C, c['model']) if c['kernel'] == 'object_selection' else AC.confirm(C, c['model'])
         replayed += 1
         if ok is False:
-            out.violation('abstract:' + role, desc, dict(kind='solver', claim=c['what'], **rp))
+            out.violation(('' if c['kernel'] == 'object_selection' else 'abstract:') + role, desc, dict(kind='solver', claim=c['what'], **rp))
         elif ok is None:
             out.inconc(f'abstract selection counterexample could not be replayed: {desc}')
         else:
